@@ -1,4 +1,5 @@
 import OvniModel.Emu.Chan
+import OvniModel.Emu.HandlerFacts
 import OvniModel.Generated.All
 
 /-
@@ -28,7 +29,13 @@ def ThState.code : ThState → Nat
 def ThState.isRunning (s : ThState) : Bool := s = .running
 def ThState.isActive (s : ThState) : Bool := s = .running || s = .cooling || s = .warming
 
-/-- Static description of a model's thread channels and handler. -/
+/-- Static description of a model's thread channels and handler.
+
+    The handler fields (`cats`, `stateReq`, `checkOutOfCpu`, `lintChan`,
+    `initVals`, `cpuDefault`, `taskCats`, `outOfCpu` and the kernel's table) are
+    not written by hand: the eight models below read them from
+    `Generated.Handlers` (clang AST of `event.c` / `setup.c`, regenerated on
+    every run) through `Emu/HandlerFacts.lean`. -/
 structure ModelSpec where
   char : Nat
   nch : Nat
@@ -52,9 +59,12 @@ structure ModelSpec where
   initVals : List (Nat × Int) := []
   /-- default of the CPU mux when no thread is selected: (channel, value) -/
   cpuDefault : List (Nat × Int) := []
+  /-- categories handed to the task layer (`pre_task` / `pre_type`) after the
+      handler's thread-state guard -/
+  taskCats : List Nat := []
+  /-- `(category, value, b)`: the event also assigns `thread->is_out_of_cpu = b` -/
+  outOfCpu : List (Nat × Nat × Bool) := []
 deriving Repr
-
-def catsOf (s : String) : List Nat := s.toList.map Char.toNat
 
 /-- first and second label of a channel's PCF value table -/
 def labelVal (labels : List (List (Int × String))) (ch k : Nat) : Int :=
@@ -62,63 +72,93 @@ def labelVal (labels : List (List (Int × String))) (ch k : Nat) : Int :=
   | some (v, _) => v
   | none => 0
 
+/-- the functions of nOS-V / Nanos6 `event.c` behind which the task layer sits -/
+def taskFns : List String := ["pre_task", "pre_type"]
+
 def specNosv : ModelSpec :=
   { char := Nosv.modelChar, nch := Nosv.nch, chanStack := Nosv.chanStack, chanDup := Nosv.chanDup,
     pvtType := Nosv.pvtType, prvFlags := Nosv.prvFlags, thTrack := Nosv.thTrack,
-    cpuTrack := Nosv.cpuTrack, table := Nosv.table, cats := some (catsOf "SUMHAP"), stateReq := 2,
-    checkOutOfCpu := true, lintChan := some 4,
+    cpuTrack := Nosv.cpuTrack, table := Nosv.table,
+    cats := Handlers.nosv.tableCats, stateReq := Handlers.nosv.stateReq,
+    checkOutOfCpu := Handlers.nosv.checkOutOfCpu, lintChan := Handlers.nosv.lintChan,
     -- model_nosv_connect: every thread starts Progressing; a CPU without running thread is Resting
-    initVals := [(6, labelVal Nosv.labels 6 0)], cpuDefault := [(6, labelVal Nosv.labels 6 1)] }
+    initVals := Handlers.nosv.initVals, cpuDefault := Handlers.nosv.cpuDefault,
+    taskCats := Handlers.nosv.catsCalling taskFns }
 
 def specNanos6 : ModelSpec :=
   { char := Nanos6.modelChar, nch := Nanos6.nch, chanStack := Nanos6.chanStack, chanDup := Nanos6.chanDup,
     pvtType := Nanos6.pvtType, prvFlags := Nanos6.prvFlags, thTrack := Nanos6.thTrack,
-    cpuTrack := Nanos6.cpuTrack, table := Nanos6.table, cats := some (catsOf "CSUFOtHDBWMP"),
-    stateReq := 2, checkOutOfCpu := false, lintChan := some 2,
-    initVals := [(5, labelVal Nanos6.labels 5 0)], cpuDefault := [(5, labelVal Nanos6.labels 5 1)] }
+    cpuTrack := Nanos6.cpuTrack, table := Nanos6.table,
+    cats := Handlers.nanos6.tableCats, stateReq := Handlers.nanos6.stateReq,
+    checkOutOfCpu := Handlers.nanos6.checkOutOfCpu, lintChan := Handlers.nanos6.lintChan,
+    initVals := Handlers.nanos6.initVals, cpuDefault := Handlers.nanos6.cpuDefault,
+    taskCats := Handlers.nanos6.catsCalling taskFns }
 
 def specNodes : ModelSpec :=
   { char := Nodes.modelChar, nch := Nodes.nch, chanStack := Nodes.chanStack, chanDup := Nodes.chanDup,
     pvtType := Nodes.pvtType, prvFlags := Nodes.prvFlags, thTrack := Nodes.thTrack,
-    cpuTrack := Nodes.cpuTrack, table := Nodes.table, cats := some (catsOf "RUWITCSP"), stateReq := 1,
-    checkOutOfCpu := false, lintChan := some 0 }
+    cpuTrack := Nodes.cpuTrack, table := Nodes.table,
+    cats := Handlers.nodes.tableCats, stateReq := Handlers.nodes.stateReq,
+    checkOutOfCpu := Handlers.nodes.checkOutOfCpu, lintChan := Handlers.nodes.lintChan,
+    initVals := Handlers.nodes.initVals, cpuDefault := Handlers.nodes.cpuDefault,
+    taskCats := Handlers.nodes.catsCalling taskFns }
 
 def specTampi : ModelSpec :=
   { char := Tampi.modelChar, nch := Tampi.nch, chanStack := Tampi.chanStack, chanDup := Tampi.chanDup,
     pvtType := Tampi.pvtType, prvFlags := Tampi.prvFlags, thTrack := Tampi.thTrack,
-    cpuTrack := Tampi.cpuTrack, table := Tampi.table, cats := none, stateReq := 1,
-    checkOutOfCpu := false, lintChan := some 0 }
+    cpuTrack := Tampi.cpuTrack, table := Tampi.table,
+    cats := Handlers.tampi.tableCats, stateReq := Handlers.tampi.stateReq,
+    checkOutOfCpu := Handlers.tampi.checkOutOfCpu, lintChan := Handlers.tampi.lintChan,
+    initVals := Handlers.tampi.initVals, cpuDefault := Handlers.tampi.cpuDefault,
+    taskCats := Handlers.tampi.catsCalling taskFns }
 
 def specMpi : ModelSpec :=
   { char := Mpi.modelChar, nch := Mpi.nch, chanStack := Mpi.chanStack, chanDup := Mpi.chanDup,
     pvtType := Mpi.pvtType, prvFlags := Mpi.prvFlags, thTrack := Mpi.thTrack,
-    cpuTrack := Mpi.cpuTrack, table := Mpi.table, cats := none, stateReq := 1,
-    checkOutOfCpu := false, lintChan := some 0 }
+    cpuTrack := Mpi.cpuTrack, table := Mpi.table,
+    cats := Handlers.mpi.tableCats, stateReq := Handlers.mpi.stateReq,
+    checkOutOfCpu := Handlers.mpi.checkOutOfCpu, lintChan := Handlers.mpi.lintChan,
+    initVals := Handlers.mpi.initVals, cpuDefault := Handlers.mpi.cpuDefault,
+    taskCats := Handlers.mpi.catsCalling taskFns }
 
 def specOpenmp : ModelSpec :=
   { char := Openmp.modelChar, nch := Openmp.nch, chanStack := Openmp.chanStack, chanDup := Openmp.chanDup,
     pvtType := Openmp.pvtType, prvFlags := Openmp.prvFlags, thTrack := Openmp.thTrack,
-    cpuTrack := Openmp.cpuTrack, table := Openmp.table, cats := none, stateReq := 1,
-    checkOutOfCpu := false, lintChan := some 0 }
+    cpuTrack := Openmp.cpuTrack, table := Openmp.table,
+    cats := Handlers.openmp.tableCats, stateReq := Handlers.openmp.stateReq,
+    checkOutOfCpu := Handlers.openmp.checkOutOfCpu, lintChan := Handlers.openmp.lintChan,
+    initVals := Handlers.openmp.initVals, cpuDefault := Handlers.openmp.cpuDefault,
+    taskCats := Handlers.openmp.catsCalling taskFns }
 
-/-- The kernel model's two events as a table: KCO push / KCI pop of ST_CSOUT on channel 0
-    (explicit switch in kernel/event.c; the value comes from the generated label table). -/
+/-- `ST_CSOUT` as the generated label table of the kernel model has it (the
+    value `context_switch` pushes is generated too: `Props/Gen.lean` states
+    that the two agree). -/
 def kernelCsOut : Int := match Kernel.labels.head? with
   | some ((v, _) :: _) => v
   | _ => 3
 
+/-- The kernel model has no event table: its two events are the cases of the
+    value switch of `context_switch` (KCO push / KCI pop of ST_CSOUT on channel
+    0, and the assignment of `is_out_of_cpu`), taken from the generated facts
+    in table form. -/
 def specKernel : ModelSpec :=
   { char := Kernel.modelChar, nch := Kernel.nch, chanStack := Kernel.chanStack, chanDup := Kernel.chanDup,
     pvtType := Kernel.pvtType, prvFlags := Kernel.prvFlags, thTrack := Kernel.thTrack,
-    cpuTrack := Kernel.cpuTrack, table := [(67, 79, 0, 1, kernelCsOut), (67, 73, 0, 2, kernelCsOut)],
-    cats := some [67], stateReq := 0, checkOutOfCpu := false, lintChan := none }
+    cpuTrack := Kernel.cpuTrack, table := Handlers.kernel.switchRows,
+    cats := some Handlers.kernel.switchCats, stateReq := Handlers.kernel.stateReq,
+    checkOutOfCpu := Handlers.kernel.checkOutOfCpu, lintChan := Handlers.kernel.lintChan,
+    initVals := Handlers.kernel.initVals, cpuDefault := Handlers.kernel.cpuDefault,
+    outOfCpu := Handlers.kernel.outOfCpuRows }
 
-/-- The ovni model's own channel (flush); its events are handled explicitly. -/
+/-- The ovni model's own channel (flush); its events are handled explicitly
+    (`ovniEvent`), so nothing is routed to a table. -/
 def specOvni : ModelSpec :=
   { char := Ovni.modelChar, nch := Ovni.nch, chanStack := Ovni.chanStack, chanDup := Ovni.chanDup,
     pvtType := Ovni.pvtType, prvFlags := Ovni.prvFlags, thTrack := Ovni.thTrack,
-    cpuTrack := Ovni.cpuTrack, table := [], cats := some [], stateReq := 0, checkOutOfCpu := true,
-    lintChan := none }
+    cpuTrack := Ovni.cpuTrack, table := [],
+    cats := Handlers.ovni.tableCats, stateReq := Handlers.ovni.stateReq,
+    checkOutOfCpu := Handlers.ovni.checkOutOfCpu, lintChan := Handlers.ovni.lintChan,
+    initVals := Handlers.ovni.initVals, cpuDefault := Handlers.ovni.cpuDefault }
 
 /-- Registration order of `models.c` (it fixes the row/type emission order only). -/
 def allSpecs : List ModelSpec :=
@@ -371,11 +411,15 @@ def ovniEvent (e : Emu) (ti : Nat) (c v : Nat) (payload : List Nat)
 
 /-! ### table driven models -/
 
-def tableEvent (e : Emu) (ti : Nat) (m : ModelSpec) (c v : Nat) : Except Err Emu := do
-  let some t := e.threads[ti]? | throw .other
+/-- the thread-state guards at the top of `process_ev` -/
+def stateGuard (m : ModelSpec) (t : Thread) : Except Err Unit := do
   if m.stateReq = 1 && !t.state.isRunning then throw .state
   if m.stateReq = 2 && !t.state.isActive then throw .state
   if m.checkOutOfCpu && t.outOfCpu then throw .state
+
+def tableEvent (e : Emu) (ti : Nat) (m : ModelSpec) (c v : Nat) : Except Err Emu := do
+  let some t := e.threads[ti]? | throw .other
+  stateGuard m t
   match m.cats with
   | some cs => if !cs.contains c then throw .unknownEvent
   | none => pure ()
@@ -389,10 +433,11 @@ def tableEvent (e : Emu) (ti : Nat) (m : ModelSpec) (c v : Nat) : Except Err Emu
       else if act = 4 then pure e
       else throw .unknownEvent
     -- kernel: is_out_of_cpu follows KCO / KCI (set before the channel operation)
-    if m.char = 75 then
+    match m.outOfCpu.find? (fun r => r.1 == c && r.2.1 == v) with
+    | some (_, _, b) =>
       let some t1 := e1.threads[ti]? | throw .other
-      pure (e1.setThread { t1 with outOfCpu := (v = 79) })
-    else pure e1
+      pure (e1.setThread { t1 with outOfCpu := b })
+    | none => pure e1
 
 /-- `model_event` for one event of thread `ti`. `taskHook` handles the task
     categories of nOS-V / Nanos6 (Emu/Task), `markHook` the `OM*` events. -/
@@ -401,12 +446,11 @@ def modelEvent (e : Emu) (ti : Nat) (m c v : Nat) (payload : List Nat)
   let some spec := findSpec m | throw .notEnabled
   if !e.enabled.contains m then throw .notEnabled
   if m = 79 then ovniEvent e ti c v payload (fun e ti v p => markHook e ti c v p)
-  else if (m = 86 || m = 54) && (c = 84 || c = 89) then
+  else if spec.taskCats.contains c then
     -- 'T' / 'Y' of nOS-V ('V') and Nanos6 ('6'): state preconditions then the task layer
     (do
       let some t := e.threads[ti]? | throw .other
-      if !t.state.isActive then throw .state
-      if spec.checkOutOfCpu && t.outOfCpu then throw .state
+      stateGuard spec t
       taskHook e ti m c payload)
   else tableEvent e ti spec c v
 
